@@ -278,3 +278,40 @@ func VerifC20_SeveralChains() {
 		verif.Assert(err != nil, "tampering-detected")
 	}
 }
+
+// VerifC20_CefExtensionValues: honest CEF entries whose extension fields hold empty, blank or arbitrary short values
+// (the formatter renders an empty value as a space, and the last extension ends the authenticated text) verify.
+func VerifC20_CefExtensionValues() {
+	key := verif.Bytes("key", 4)
+	val := verif.Bytes("value", verif.Choose("n", 0, 2))
+	for i := range val {
+		verif.Assume(verif.And(val[i] >= ' ', val[i] < 0x7f))
+	}
+	field := "zone_id" // sorts after every built-in extension: its value ends the line
+	if verif.Choose("field", 0, 1) == 1 {
+		field = "client"
+	}
+	hook, _ := NewCefFormatterHook(key)
+	f := &CEFTextFormatter{}
+	var written []string
+	for i := 0; i < 3; i++ {
+		data := logrus.Fields{FieldKeyVendor: "v", FieldKeyProduct: "p", FieldKeyVersion: "1", FieldKeyEventCode: 100}
+		if i == 1 {
+			data[field] = string(val)
+		}
+		e := &logrus.Entry{Message: "m", Level: logrus.InfoLevel, Data: data}
+		line, err := f.Format(e)
+		if err != nil {
+			return
+		}
+		buf := &bytes.Buffer{}
+		buf.Write(line)
+		if hook.PostFormat(e, buf) != nil {
+			return
+		}
+		b := buf.Bytes()
+		written = append(written, string(b[:len(b)-1]))
+	}
+	verif.Reach("written")
+	verif.Assert(verifVerify(key, true, written) == nil, "cef-chain-with-short-extension-values-verifies")
+}
